@@ -184,6 +184,9 @@ def cases(tier):
         yield ("diamond", lo, min(n, lo + 8), 0)
     for cmd in SIG.DATA_COMMANDS:
         if SIG.input_fuzz(cmd) != "fz":
+            yield ("repair", cmd)
+    for cmd in SIG.DATA_COMMANDS:
+        if SIG.input_fuzz(cmd) != "fz":
             yield ("netcdf", cmd)
 
 
@@ -392,10 +395,97 @@ def _run_netcdf(case):
     return {"evals": max(evals, 1), "nontrivial": evals, "judged": judged, "viols": viols, "outcomes": outcomes, "sample": sample}
 
 
+def _run_repair(case):
+    """histories on ONE program object: the first evaluation fails for a reason outside the model (a non-numeric cell in the data file),
+    the file is repaired, the same program is evaluated again: its results must be the value of the graph on the repaired table.
+    Every column as the faulty one x {run(), result of the last command} as the failing step x 4 file orders x every input binding."""
+    from mpilot.exceptions import MPilotError
+    from mpilot.program import Program
+
+    _, cmd = case
+    table = TABLES[0]
+    viols, outcomes = [], {}
+    counters = {"judged": 0}
+    evals = 0
+    sample = None
+    work = snapshot.scratch_dir("c02_")
+    base = [("F", False), ("I", False), ("G", False)]
+    try:
+        params = D.presets_small(cmd, 2)[0]
+        fz1 = SIG.COMMANDS[cmd]["out"][1]
+        follower = ("FuzzyNot", {}) if fz1 else ("Copy", {})
+        for ins in _bindings(cmd, base):
+            cmds = [("R1", cmd, params, ins), ("R2", follower[0], follower[1], ("R1",))]
+            env, unstable = _ref_eval(cmds, table)
+            if not all(env[n][0] == "ok" for n, _, _, _ in cmds):
+                continue
+            prog = _base_cmds() + [_cmd_ast(n, c, p, i) for n, c, p, i in cmds]
+            desc = " ; ".join("%s=%s%r%s" % (n, c, tuple(i), "" if not p else repr(p)) for n, c, p, i in cmds)
+            for order in _orders(len(prog), False):
+                text = G.render(G.items_of([prog[i] for i in order]))[0]
+                for badcol in ("F", "I", "G"):
+                    for first_step in ("run", "result"):
+                        _write_table(work, table)
+                        path = os.path.join(work, "in.csv")
+                        lines = open(path).read().split("\n")
+                        cells = lines[2].split(",")
+                        cells["FIG".index(badcol)] = "n/a"
+                        lines[2] = ",".join(cells)
+                        open(path, "w").write("\n".join(lines))
+                        tag = {"model": desc, "order": list(order), "text": text, "faulty_column": badcol, "first_step": first_step}
+                        sample = tag
+                        evals += 1
+                        with contextlib.redirect_stdout(io.StringIO()), numpy.errstate(all="ignore"):
+                            p = Program.from_source(text, libraries=CSV, working_dir=work)
+                            try:
+                                if first_step == "run":
+                                    p.run()
+                                else:
+                                    p.commands["R2"].result
+                                failed = False
+                            except MPilotError:
+                                failed = True
+                            if not failed and first_step == "result" and badcol not in ins:
+                                pass  # the faulty column is not needed for R2: no failure yet
+                            elif not failed:
+                                outcomes["repair:first-step-did-not-fail"] = outcomes.get("repair:first-step-did-not-fail", 0) + 1
+                                continue  # (reading a non-numeric cell is C17's business)
+                            _write_table(work, table)
+                            counters["judged"] += 1
+                            try:
+                                p.run()
+                                res = {n: c.result for n, c in p.commands.items()}
+                            except Exception as exc:
+                                viols.append(V("C02:after-repair:raised:%s" % type(exc).__name__,
+                                               "model [%s]: first %s failed on a bad cell in column %s; after repairing the file the same program raises %s: %s" % (
+                                                   desc, first_step, badcol, type(exc).__name__, str(exc).split("\n")[0][:120]), **tag))
+                                continue
+                        bad = False
+                        for n in ("F", "I", "G", "R1", "R2"):
+                            if n in unstable:
+                                continue
+                            want = env[n][1]
+                            for kind, msg in D.compare(res[n], want, n.startswith("R"), (len(table["F"]),)):
+                                viols.append(V("C02:%s:after-repair:%s" % (cmd if n.startswith("R") else "EEMSRead", kind),
+                                               "result %s of [%s] after failure and repair: %s" % (n, desc, msg), **tag))
+                                bad = True
+                                break
+                        k = "repair:%s" % ("differs" if bad else "ok")
+                        outcomes[k] = outcomes.get(k, 0) + 1
+            if len(viols) > 30:
+                del viols[30:]
+    finally:
+        import shutil
+        shutil.rmtree(work, ignore_errors=True)
+    return {"evals": max(evals, 1), "nontrivial": evals, "judged": counters["judged"], "unspecified": 0, "unstable": 0, "viols": viols, "outcomes": outcomes, "sample": sample}
+
+
 def run(case):
     case = tuple(case)
     if case[0] == "netcdf":
         return _run_netcdf(case)
+    if case[0] == "repair":
+        return _run_repair(case)
     viols, outcomes = [], {}
     counters = {"judged": 0, "unspecified": 0, "unstable": 0}
     evals = 0
